@@ -7,7 +7,7 @@ use std::time::Duration;
 use vl_model::ctx::{hash64, load_replay, Args, Ctx};
 use vl_model::pt::{self, Fail};
 use vl_model::sock::{Peer, Scratch, Server, Wait};
-use vl_model::svc::t_service;
+use vl_tsvc::t_service;
 use vl_model::wire::*;
 
 use crate::c01::{self, style_of};
@@ -15,7 +15,7 @@ use crate::c01::{self, style_of};
 pub const RULE: &str = "rounds of 2..64 simultaneous clients on one in-process listen() server (unix path, abstract \
 unix, TCP; worker limit 100), each pipelining a random C01 request sequence whose tokens carry the client's number, \
 written in random segments with 0-5 ms pauses; in the same round up to 4 misbehaving peers are held open (idle \
-after one call, connected-but-silent, half a message then nothing, a malformed message). Oracle: each client's \
+after one call, connected-but-silent, half a message then nothing, a malformed message, 60 pipelined requests then gone without reading, thousands of introspection requests never read). Oracle: each client's \
 reply stream, read to EOF after a sentinel and half-close, satisfies the C01 reply-stream checker for its own \
 requests (so a reply carrying another client's token, a missing or a surplus reply is a failure). A client that \
 does not complete while the misbehaving peers are open but completes once they are closed - in two consecutive \
@@ -36,6 +36,10 @@ pub enum Bad {
     Silent,
     HalfMessage,
     Malformed,
+    /// pipelines many requests and closes without reading (the service's writes fail)
+    VanishAfterRequests,
+    /// pipelines thousands of introspection requests and never reads (the service's writes block)
+    FloodNoRead,
 }
 
 #[derive(Clone, Debug)]
@@ -77,6 +81,8 @@ fn round_from(v: &Value) -> Round {
                     "Silent" => Some(Bad::Silent),
                     "HalfMessage" => Some(Bad::HalfMessage),
                     "Malformed" => Some(Bad::Malformed),
+                    "VanishAfterRequests" => Some(Bad::VanishAfterRequests),
+                    "FloodNoRead" => Some(Bad::FloodNoRead),
                     _ => None,
                 })
                 .collect()
@@ -151,19 +157,76 @@ fn client_run(addr: &str, c: &Client, number: usize) -> Result<(), Fail> {
     })
 }
 
-fn open_bad(addr: &str, b: Bad, n: usize) -> Option<Peer> {
-    let mut p = Peer::connect(addr).ok()?;
+pub enum BadHandle {
+    Peer(Peer),
+    Raw(vl_model::sock::Conn),
+}
+
+fn open_bad(addr: &str, b: Bad, n: usize) -> Option<BadHandle> {
+    use std::io::Write;
     match b {
-        Bad::IdleAfterCall => {
-            let req = json!({"method": "org.verif.test.Echo", "parameters": {"token": format!("idle-{}", n), "n": 0}});
-            p.send(&encode(&req, Style::Compact));
-            let _ = p.wait_finals(1, Duration::from_secs(5));
+        Bad::VanishAfterRequests => {
+            let mut c = vl_model::sock::Conn::connect(addr).ok()?;
+            let mut all = vec![];
+            for i in 0..60 {
+                let req = json!({"method": "org.verif.test.Echo", "parameters": {"token": format!("vanish-{}-{}", n, i), "n": i}});
+                all.extend(encode(&req, Style::Compact));
+            }
+            let _ = c.write_all(&all);
+            let _ = c.shutdown(std::net::Shutdown::Both);
+            None // gone already
         }
-        Bad::Silent => {}
-        Bad::HalfMessage => p.send(b"{\"method\":\"org.verif.test.Echo\",\"parameters\":{\"token\":\"ha"),
-        Bad::Malformed => p.send(b"{\"method\":42}\0"),
+        Bad::FloodNoRead => {
+            let mut c = vl_model::sock::Conn::connect(addr).ok()?;
+            match &c {
+                vl_model::sock::Conn::Unix(s) => {
+                    let _ = s.set_nonblocking(true);
+                }
+                vl_model::sock::Conn::Tcp(s) => {
+                    let _ = s.set_nonblocking(true);
+                }
+            }
+            let one = encode(&json!({"method": "org.varlink.service.GetInterfaceDescription", "parameters": {"interface": "org.verif.test"}}), Style::Compact);
+            let mut chunk = vec![];
+            for _ in 0..200 {
+                chunk.extend_from_slice(&one);
+            }
+            // write until the socket refuses more (the service is then blocked writing replies)
+            let t0 = std::time::Instant::now();
+            let mut stalled_since: Option<std::time::Instant> = None;
+            let mut sent = 0usize;
+            while sent < 60 * chunk.len() && t0.elapsed() < Duration::from_secs(3) {
+                match c.write(&chunk) {
+                    Ok(k) if k > 0 => {
+                        sent += k;
+                        stalled_since = None;
+                    }
+                    _ => {
+                        let s0 = *stalled_since.get_or_insert_with(std::time::Instant::now);
+                        if s0.elapsed() > Duration::from_millis(150) {
+                            break;
+                        }
+                        std::thread::sleep(Duration::from_millis(2));
+                    }
+                }
+            }
+            Some(BadHandle::Raw(c))
+        }
+        _ => {
+            let mut p = Peer::connect(addr).ok()?;
+            match b {
+                Bad::IdleAfterCall => {
+                    let req = json!({"method": "org.verif.test.Echo", "parameters": {"token": format!("idle-{}", n), "n": 0}});
+                    p.send(&encode(&req, Style::Compact));
+                    let _ = p.wait_finals(1, Duration::from_secs(5));
+                }
+                Bad::HalfMessage => p.send(b"{\"method\":\"org.verif.test.Echo\",\"parameters\":{\"token\":\"ha"),
+                Bad::Malformed => p.send(b"{\"method\":42}\0"),
+                _ => {}
+            }
+            Some(BadHandle::Peer(p))
+        }
     }
-    Some(p)
 }
 
 #[derive(Debug, PartialEq)]
@@ -176,7 +239,7 @@ pub enum RoundOutcome {
 
 pub fn run_round(addrs: &[String; 3], r: &Round) -> Result<RoundOutcome, Fail> {
     let addr = addrs[r.transport].clone();
-    let mut bad: Vec<Peer> = r.bad.iter().enumerate().filter_map(|(i, b)| open_bad(&addr, *b, i)).collect();
+    let mut bad: Vec<BadHandle> = r.bad.iter().enumerate().filter_map(|(i, b)| open_bad(&addr, *b, i)).collect();
     let (tx, rx) = mpsc::channel::<Report>();
     let mut handles = vec![];
     for (i, c) in r.clients.iter().enumerate() {
@@ -239,7 +302,7 @@ pub fn run_round(addrs: &[String; 3], r: &Round) -> Result<RoundOutcome, Fail> {
 fn round_strategy(max_clients: usize) -> impl Strategy<Value = Round> {
     let client = (c01::seq_strategy(alphabet(), 1, 10), prop::collection::vec(any::<u16>(), 0..6), prop::collection::vec(0u8..6, 0..7))
         .prop_map(|((syms, _d, style), cuts, pauses)| Client { syms, style, cuts, pauses });
-    let bad = prop::sample::select(vec![Bad::IdleAfterCall, Bad::Silent, Bad::HalfMessage, Bad::Malformed]);
+    let bad = prop::sample::select(vec![Bad::IdleAfterCall, Bad::Silent, Bad::HalfMessage, Bad::Malformed, Bad::VanishAfterRequests, Bad::FloodNoRead]);
     (0usize..3, prop::collection::vec(client, 2..=max_clients), prop::collection::vec(bad, 0..=4)).prop_map(|(transport, clients, bad)| Round { transport, clients, bad })
 }
 
